@@ -609,6 +609,11 @@ class List(list, base.Symbolic, pg_typing.CustomTyping):
     concatenated.extend(other)
     return concatenated
 
+  def __iadd__(self, other: Iterable[Any]) -> 'List':
+    """In-place concatenation goes through `extend` (checks, parenting, events)."""
+    self.extend(other)
+    return self
+
   def __mul__(self, n: int) -> 'List':
     """Returns a repeated Lit of self."""
     result = List()
